@@ -191,6 +191,6 @@ class Environment(object):
         except AttributeError:
             pass
         else:
-            self.conn.send_bytes(dumps(('close', (), {}), 2))
+            self.conn.send_bytes(dumps(('close', (), {})))
             self.conn.close()
             del self.conn
